@@ -1,0 +1,217 @@
+//go:build verif
+
+package lsm
+
+import (
+	"errors"
+	"os"
+	"time"
+
+	"github.com/feichai0017/NoKV/kv"
+	"github.com/feichai0017/NoKV/lsm/compact"
+	"github.com/feichai0017/NoKV/utils"
+)
+
+// This file is compiled only with the build tag `verif`. It exposes synchronous
+// maintenance entry points to the verification harness in /verif. Every entry
+// point calls the production code path (doCompact, runCompactDef, flush, ...);
+// nothing here re-implements engine logic.
+
+// VerifWaitFlush blocks until no immutable memtable is pending or the timeout expires.
+func (lsm *LSM) VerifWaitFlush(timeout time.Duration) bool {
+	deadline := time.Now().Add(timeout)
+	for {
+		lsm.lock.RLock()
+		n := len(lsm.immutables)
+		lsm.lock.RUnlock()
+		if n == 0 && lsm.flushMgr.Stats().Pending == 0 && lsm.flushMgr.Stats().Active == 0 {
+			return true
+		}
+		if time.Now().After(deadline) {
+			return false
+		}
+		time.Sleep(200 * time.Microsecond)
+	}
+}
+
+// VerifImmutables reports how many immutable memtables are waiting for flush.
+func (lsm *LSM) VerifImmutables() int {
+	lsm.lock.RLock()
+	defer lsm.lock.RUnlock()
+	return len(lsm.immutables)
+}
+
+// VerifCompact runs one compaction of the given level through doCompact with the
+// given ingest mode (0 none, 1 drain, 2 keep). utils.ErrFillTables means no plan.
+func (lsm *LSM) VerifCompact(level int, mode int) error {
+	lm := lsm.levels
+	if level < 0 || level >= len(lm.levels) {
+		return utils.ErrFillTables
+	}
+	p := compact.Priority{
+		Level:      level,
+		Score:      2,
+		Adjusted:   2,
+		Target:     lm.levelTargets(),
+		IngestMode: compact.IngestMode(mode),
+		StatsTag:   "verif",
+	}
+	return lm.doCompact(0, p)
+}
+
+// VerifCompactOnce runs the natural picker once (same as the background worker 0).
+func (lsm *LSM) VerifCompactOnce() bool {
+	return lsm.levels.compaction.RunOnce(0)
+}
+
+// VerifCompactL0ToL0 runs the L0->L0 path (fillTablesL0ToL0 + runCompactDef) the
+// way doCompact does when L0->Lbase cannot be scheduled.
+func (lsm *LSM) VerifCompactL0ToL0() error {
+	lm := lsm.levels
+	t := lm.levelTargets()
+	cd := compactDef{
+		compactorId: 0,
+		plan: compact.Plan{
+			ThisLevel:    0,
+			ThisFileSize: lm.targetFileSizeForLevel(t, 0),
+			StatsTag:     "verif",
+		},
+		thisLevel: lm.levels[0],
+		adjusted:  2,
+	}
+	cd.setNextLevel(lm, t, lm.levels[t.BaseLevel])
+	if !lm.fillTablesL0ToL0(&cd) {
+		return utils.ErrFillTables
+	}
+	defer lm.compactState.Delete(cd.stateEntry())
+	return lm.runCompactDef(0, 0, cd)
+}
+
+// VerifAgeTables shifts the creation time of every table into the past so that
+// age-gated planners (L0->L0: 10s, Lmax: 1h) consider them.
+func (lsm *LSM) VerifAgeTables(d time.Duration) {
+	for _, lh := range lsm.levels.levels {
+		lh.Lock()
+		for _, t := range lh.tables {
+			t.createdAt = t.createdAt.Add(-d)
+		}
+		for _, t := range lh.ingest.allTables() {
+			t.createdAt = t.createdAt.Add(-d)
+		}
+		lh.Unlock()
+	}
+}
+
+// VerifSetLevelSizing overrides level sizing (fields of lsm.Options) so small
+// data sets spread over several levels.
+func (lsm *LSM) VerifSetLevelSizing(baseLevelSize, baseTableSize int64, levelMult, tableMult int) {
+	o := lsm.levels.opt
+	if baseLevelSize > 0 {
+		o.BaseLevelSize = baseLevelSize
+	}
+	if baseTableSize > 0 {
+		o.BaseTableSize = baseTableSize
+	}
+	if levelMult > 0 {
+		o.LevelSizeMultiplier = levelMult
+	}
+	if tableMult > 0 {
+		o.TableSizeMultiplier = tableMult
+	}
+}
+
+// VerifTableInfo describes one table for evidence/classification.
+type VerifTableInfo struct {
+	FID      uint64
+	Level    int
+	Ingest   bool
+	Min, Max []byte
+	Size     int64
+}
+
+// VerifLayout lists all tables by level.
+func (lsm *LSM) VerifLayout() []VerifTableInfo {
+	var out []VerifTableInfo
+	for _, lh := range lsm.levels.levels {
+		lh.RLock()
+		for _, t := range lh.tables {
+			out = append(out, VerifTableInfo{FID: t.fid, Level: lh.levelNum, Min: kv.SafeCopy(nil, t.MinKey()), Max: kv.SafeCopy(nil, t.MaxKey()), Size: t.Size()})
+		}
+		for _, t := range lh.ingest.allTables() {
+			out = append(out, VerifTableInfo{FID: t.fid, Level: lh.levelNum, Ingest: true, Min: kv.SafeCopy(nil, t.MinKey()), Max: kv.SafeCopy(nil, t.MaxKey()), Size: t.Size()})
+		}
+		lh.RUnlock()
+	}
+	return out
+}
+
+// VerifThrottle toggles the DB-level write throttle through the registered callback.
+func (lsm *LSM) VerifThrottle(on bool) { lsm.throttleWrites(on) }
+
+// VerifTable wraps a single SST built/opened through the production builder and openTable.
+type VerifTable struct {
+	t    *table
+	lsm  *LSM
+	name string
+}
+
+// VerifBuildTable builds an SST from entries (already sorted by internal key)
+// using the production tableBuilder with the given block size / bloom setting and
+// opens it through openTable. stale[i] routes entry i through AddStaleKey.
+func (lsm *LSM) VerifBuildTable(fid uint64, blockSize int, bloomFP float64, entries []*kv.Entry, stale []bool) (*VerifTable, error) {
+	opt := lsm.option.Clone()
+	opt.BlockSize = blockSize
+	opt.BloomFalsePositive = bloomFP
+	b := newTableBuiler(opt)
+	for i, e := range entries {
+		if i < len(stale) && stale[i] {
+			b.AddStaleKey(e)
+		} else {
+			b.AddKey(e)
+		}
+	}
+	name := utils.FileNameSSTable(lsm.option.WorkDir, fid)
+	t := openTable(lsm.levels, name, b)
+	if t == nil {
+		return nil, errors.New("verif: openTable returned nil")
+	}
+	return &VerifTable{t: t, lsm: lsm, name: name}, nil
+}
+
+// Reopen drops the in-memory handle (and cached index/blocks) and opens the file again.
+func (vt *VerifTable) Reopen() (*VerifTable, error) {
+	if err := vt.t.closeHandle(); err != nil {
+		return nil, err
+	}
+	vt.lsm.levels.cache.delIndex(vt.t.fid)
+	if _, err := os.Stat(vt.name); err != nil {
+		return nil, err
+	}
+	t := openTable(vt.lsm.levels, vt.name, nil)
+	if t == nil {
+		return nil, errors.New("verif: reopen failed")
+	}
+	return &VerifTable{t: t, lsm: vt.lsm, name: vt.name}, nil
+}
+
+// Search is table.Search.
+func (vt *VerifTable) Search(key []byte, maxVs uint64) (*kv.Entry, error) {
+	return vt.t.Search(key, &maxVs)
+}
+
+// NewIterator is table.NewIterator.
+func (vt *VerifTable) NewIterator(asc bool) utils.Iterator {
+	return vt.t.NewIterator(&utils.Options{IsAsc: asc})
+}
+
+// MinKey / MaxKey / Blocks expose metadata.
+func (vt *VerifTable) MinKey() []byte { return vt.t.MinKey() }
+func (vt *VerifTable) MaxKey() []byte { return vt.t.MaxKey() }
+func (vt *VerifTable) Blocks() int {
+	if idx := vt.t.index(); idx != nil {
+		return len(idx.GetOffsets())
+	}
+	return 0
+}
+func (vt *VerifTable) HasBloom() bool { return vt.t.hasBloom }
+func (vt *VerifTable) Path() string   { return vt.name }
